@@ -5,6 +5,7 @@ property's statement (computed independently from the files and the ICU4X oracle
 form selected for counts 0..=200 (+ large / decimal operands) through the value's denotation.  (X) probe crate:
 td_string!/td! for plural keys over those locales."""
 from .pipe import *
+import os
 from . import probe
 
 LOCALES = ["en", "fr", "ru", "ar", "pl", "ja", "cy", "ga", "he", "lt"]
@@ -128,6 +129,9 @@ def run(ctx):
     proj.literal_operands = lambda p: COUNT_OPS
     try:
         generic_pipeline_check(ctx, [("I18nVerif.Theorems.C05", "C05_"), ("I18nVerif.Theorems.C05Map", "C05_")], projects, oracle, "C05")
+        # the build with `suppress_key_warnings` silences the missing / surplus *key* reports only: merged keys, forms and the
+        # unused-form reports are the same there
+        generic_pipeline_check(ctx, [], projects if ctx.quick else rng.sample(projects, min(len(projects), 200)), oracle, "C05-suppress", suppress=True)
         more = [proj.gen_project(rng, {"fk": True, "locale_pool": LOCALES}) for _ in range(ctx.budget(150, 3000))]
     finally:
         proj.literal_operands = orig
@@ -161,6 +165,32 @@ def run(ctx):
                             "why": "the macro matches on the %s plural category of the count in the current locale" % ("ordinal" if mac.endswith("_ordinal") else "cardinal"),
                             "harness": "ctx_h plural_macros (ICU4X PluralRules called directly as oracle)"})
                         break
+    # the same categories whatever supplies the CLDR data: leptos_i18n built without `icu_compiled_data`, plural rules obtained through a custom
+    # provider — a hand-written `IcuDataProvider` impl, and the impl generated by `#[derive(IcuDataProvider)]` (harness fmt_np_h, two builds)
+    for variant, feats, who in (("np", None, "hand-written IcuDataProvider impl"), ("np-derived", ["derived"], "#[derive(IcuDataProvider)] impl")):
+        binn = cargo_build(ctx, "fmt_np_h", features=feats, variant=variant)
+        if binn is None:
+            continue
+        reqs = [{"op": "plural", "locale": l, "rule": rule, "n": n} for l in ("en", "fr", "ru", "ar") for rule in ("cardinal", "ordinal")
+                for n in list(range(0, 32)) + [100, 101, 102, 103, 111, 112, 113, 1000, 1000000]]
+        for q, r in zip(reqs, run_lines_resilient(binn, reqs)):
+            ctx.seen({"custom_provider": variant, "q": q}, nontrivial=True)
+            ctx.count("custom_provider_plural:" + variant)
+            if "panic" in r or "crash" in r or "bad_op" in r or "oracle" not in r:
+                report_violation(ctx, "plural-custom-provider:no-answer", {"case": q, "provider": who, "impl": r})
+                break
+            # the small project of the harness writes each form's own name as its text; forms it does not write fall back to `other`
+            keys = json.load(open(os.path.join(HARNESS_DIR, "fmt_np_h", "locales", q["locale"] + ".json")))
+            pre = "items_" if q["rule"] == "cardinal" else "rank_ordinal_"
+            written = {k[len(pre):] for k in keys if k.startswith(pre)}
+            exp_text = r["oracle"] if r["oracle"] in written else "other"
+            if r["impl"] != r["oracle"] or r["string"] != exp_text:
+                report_violation(ctx, "plural-custom-provider:wrong-category", {
+                    "case": q, "provider": who, "expected_by_spec": {"category": r["oracle"], "text": exp_text},
+                    "implementation": {"category": r["impl"], "text": r["string"]},
+                    "why": "the %s category ICU4X assigns to the count for the locale" % q["rule"],
+                    "harness": "fmt_np_h plural (" + variant + " build; ICU4X PluralRules with compiled data called directly as oracle)"})
+                break
     # compiled code: ordinal and cardinal keys rendered by td_string! / td_display! / td! over locales with different CLDR patterns
     probe.run_render_probe(ctx, rng, n_crates=ctx.budget(1, 3), flavours=("string", "display", "view"), sig_prefix="plurals", per_key=4,
                            opts={"locales": ["en", "fr", "cy", "ru", "pt", "pt-PT"], "long_key": False, "formatted_keys": False, "overlap_keys": False})
